@@ -207,10 +207,15 @@ class HttpProxyPlugin(HttpProtocolHandlerPlugin):
                 )
                 return False
             except BrokenPipeError:
+                # Server stopped receiving.  What it sent before, e.g. an
+                # early response, is still read and relayed to the client
+                # until it signals end of stream.
                 logger.warning(
                     'BrokenPipeError when flushing buffer for server',
                 )
-                return self._close_and_release()
+                self.upstream.buffer = []
+                self.upstream._num_buffer = 0
+                return False
             except OSError as e:
                 logger.exception(
                     'OSError when flushing buffer to server', exc_info=e,
